@@ -49,7 +49,7 @@ inductive STop
   | wDespawn (r : Ref) | wDespawnRec (r : Ref) | wRemove (r : Ref) (ty : Nat) | wInsertRaw (r : Ref) (ty v : Nat)
   | wSetParent (c p : Ref) | gc | poll | frameEnd
   | wSysEvent (s : Ref) (ty pid : Nat) | wBroadcast (ty pid : Nat) | wEntityEvent (r : Ref) (ty pid : Nat)
-  | sigPrepare (r : Ref) | sigClone (a : Nat) | sigDrop (a : Nat)
+  | sigPrepare (r : Ref) | sigClone (a : Nat) | sigDrop (a : Nat) | sigThreads (a n : Nat)
 deriving Repr, Inhabited
 
 structure Def where
@@ -147,6 +147,7 @@ def parseTop (toks : List String) : Option STop :=
   | ["sigprepare", r] => (parseRef r).map .sigPrepare
   | ["sigclone", a] => (parseIdx 'a' a).map .sigClone
   | ["sigdrop", a] => (parseIdx 'a' a).map .sigDrop
+  | ["sigthreads", a, n] => do pure (.sigThreads (← parseIdx 'a' a) (← n.toNat?))
   | _ => none
 
 def toks (line : String) : List String := (line.trimAscii.toString.splitOn " ").filter (· ≠ "")
@@ -220,6 +221,10 @@ def resolveTrig (s : St) : STrig → Option Trig
 
 def resolveTrigs (s : St) (ts : List STrig) : Option (List Trig) := ts.mapM (resolveTrig s)
 
+/-- A named system whose `SystemCommandStorage` insertion is still queued: Bevy's `Commands::spawn` panics if such an
+    entity is despawned before its insert command is applied, so the harness (and this resolution) skips despawning it. -/
+def pendingSystem (s : St) (e : Nat) : Bool := s.sysNames.contains e && s.alive e && (s.storage e).isNone
+
 /-- Resolves a scripted action; `none` = it names something that does not exist (yet): the action is skipped. -/
 def resolveAct (sc : Scenario) (s : St) : SAct → Option Act
   | .spawn => some .spawn
@@ -240,8 +245,8 @@ def resolveAct (sc : Scenario) (s : St) : SAct → Option Act
   | .setNeq r ty v => (resolveRef s r).map (Act.setNeq · ty v)
   | .readComp r ty => (resolveRef s r).map (Act.readComp · ty)
   | .remove r ty => (resolveRef s r).map (Act.remove · ty)
-  | .despawn r => (resolveRef s r).map Act.despawn
-  | .despawnRec r => (resolveRef s r).map Act.despawnRec
+  | .despawn r => (resolveRef s r).bind (fun e => if pendingSystem s e then none else some (Act.despawn e))
+  | .despawnRec r => (resolveRef s r).bind (fun e => if pendingSystem s e then none else some (Act.despawnRec e))
   | .ewrAdd wr r v => if wr < sc.ewrs.length then (resolveRef s r).map (Act.ewrAdd wr · v) else none
   | .ewrRemove wr ts => if wr < sc.ewrs.length then (resolveTrigs s ts).map (Act.ewrRemove wr) else none
   | .wrAdd wr ts => if wr < sc.wrs.length then (resolveTrigs s ts).map (Act.wrAdd wr) else none
@@ -289,6 +294,7 @@ def resolveTop (s : St) : STop → Option TopOp
   | .sigPrepare r => (resolveRef s r).map .sigPrepare
   | .sigClone a => (s.sigs[a]?).map .sigClone
   | .sigDrop a => (s.sigs[a]?).map .sigDrop
+  | .sigThreads a n => (s.sigs[a]?).bind (fun arc => if s.arcRc arc > 0 then some (.sigThreads arc n) else none)
 
 /-- The history a scenario denotes. An unresolvable top-level operation degenerates to an empty batch. -/
 def Scenario.hist (sc : Scenario) : Hist where
@@ -351,6 +357,7 @@ def showEv (s : St) : Ev → String
   | .dropPayload pid => s!"drop p{pid}"
   | .expect sys obs => s!"ghost expect {showName s sys} {showObs s obs}"
   | .misclaim sys => s!"ghost misclaim {showName s sys}"
+  | .insNoop e ty => s!"ghost insnoop {showName s e} {ty}"
   | .canary sys => s!"canary {showName s sys}"
   | .applied sys => s!"applied {showName s sys}"
   | .abortNoEntity sys => s!"abortnoentity {showName s sys}"
